@@ -266,7 +266,9 @@ class C11:
             if Q != P:
                 bad = sorted(k for k in set(P) | set(Q) if P.get(k) != Q.get(k))[:3]
                 fails.append(F("C11.presence", where=nm, pairs=[[list(k), sorted(P.get(k, [])), sorted(Q.get(k, []))] for k in bad]))
-        if r2 != "ok" or oracles.is_err(dump2):
+        if r2 == "E:VE" and case["dflt"] != case["cls"]:
+            pass      # directed data read as an undirected graph (caller's choice) may violate the start order
+        elif r2 != "ok" or oracles.is_err(dump2):
             fails.append(F("C11.raised", where="no directed field", got=r2))
         elif dump2["cls"] != case["dflt"]:
             fails.append(F("C11.directed_default", expected=case["dflt"], got=dump2["cls"]))
